@@ -1,9 +1,15 @@
 use std::hash::Hash;
 use std::sync::Arc;
+#[cfg(not(cached_verif))]
 use std::thread;
+#[cfg(cached_verif)]
+use crate::verif_rt::sync::thread;
 use std::time::Duration;
 
+#[cfg(not(cached_verif))]
 use crossbeam_channel::Receiver;
+#[cfg(cached_verif)]
+use crate::verif_rt::sync::crossbeam_channel::{self, Receiver};
 use log::{error, info};
 
 use crate::cache::command::{CommandStatus, CommandType};
